@@ -154,14 +154,15 @@ class WARCRecord(object):
     def get_http_header(self) -> Response:
         '''Return the HTTP header.
 
-        It only attempts to read the first 4 KiB of the payload.
+        It only attempts to read the first 64 KiB of the payload (the
+        HTTP client accepts header blocks of up to 32 KiB).
 
         Returns:
             Response, None: Returns an instance of
             :class:`.http.request.Response` or None.
         '''
         with wpull.util.reset_file_offset(self.block_file):
-            data = self.block_file.read(4096)
+            data = self.block_file.read(65536)
 
         match = re.match(br'(.*?\r?\n\r?\n)', data, re.DOTALL)
 
